@@ -231,7 +231,19 @@ type world struct {
 	exclRun  map[slotKey]int          // callback executions in flight per exclusive key
 	exclOK   map[slotKey]int          // successful callback executions per exclusive key
 	failNext map[int]bool             // per task: the next callback execution fails
-	notes    []string
+	// failures of decode callbacks by the id of the error they returned: the
+	// interval of the call whose callback produced it
+	failIv map[int][2]int64
+	// calls that returned somebody else's failure without running their own
+	// callback: judged after the run, when every interval is known
+	staleCand []staleCandidate
+	notes     []string
+}
+
+type staleCandidate struct {
+	id   int
+	call int64
+	ref  pdf.Reference
 }
 
 func (w *world) tick() int64 { w.clock++; return w.clock }
@@ -403,6 +415,16 @@ func (w *world) opDecode(tk int, x int, ref pdf.Reference, tp string, nest, excl
 		var cbe *callbackError
 		if errors.As(err, &cbe) {
 			w.e.Probe("decode callback failed")
+			if ran {
+				if w.failIv == nil {
+					w.failIv = map[int][2]int64{}
+				}
+				w.failIv[cbe.id] = [2]int64{call, ret}
+			} else {
+				// somebody else's failure: legitimate only if that decode was
+				// still in flight when this call began (judged after the run)
+				w.staleCand = append(w.staleCand, staleCandidate{cbe.id, call, ref})
+			}
 		} else if !isInjected(err) {
 			w.fail("unexpected-error", map[string]string{"op": "decode"}, "Decode(%s): %v", ref, err)
 		}
@@ -724,7 +746,7 @@ func (w *world) opOtherFile(tk int, seed int) {
 }
 
 var cmapNames = []string{"Identity-H", "UniJIS-UCS2-H", "90ms-RKSJ-H", "GBK-EUC-H", "no-such-cmap"}
-var orderings = [][2]string{{"Adobe", "Japan1"}, {"Adobe", "GB1"}, {"Adobe", "Nope"}}
+var orderings = [][2]string{{"Adobe", "Japan1"}, {"Adobe", "GB1"}, {"Adobe", "Nope"}, {"Adobe", "Korea1"}, {"Adobe", "CNS1"}}
 
 // The character collections of the predefined CMaps used here (Adobe
 // Technical Note 5094 / ISO 32000 table of predefined CMaps): what a shared,
@@ -798,11 +820,35 @@ func (w *world) opCMap(tk int, i int) {
 		w.fail("package-cache", map[string]string{"op": "cmap"}, "cmap.Predefined(%q) returned different results: %p,%v and %p,%v", name, f1, err1, f2, err2)
 	}
 	w.checkPredefined(name)
+	// two collections of one registry in every lookup, so that a verdict
+	// depends on this run only and not on what the process loaded before
+	w.checkMapping(orderings[(i+1)%len(orderings)])
 	o := orderings[i%len(orderings)]
+	w.checkMapping(o)
+}
+
+func (w *world) checkMapping(o [2]string) {
 	m1, err1 := mapping.GetCIDTextMapping(o[0], o[1])
 	m2, err2 := mapping.GetTextToCIDMapping(o[0], o[1])
 	if (err1 == nil) != (err2 == nil) || (err1 == nil && (len(m1) == 0 || len(m2) == 0)) {
 		w.fail("package-cache", map[string]string{"op": "mapping"}, "mapping %v: %d entries err %v / %d entries err %v", o, len(m1), err1, len(m2), err2)
+	}
+	if err1 == nil && err2 == nil {
+		// the reverse table must be the inverse of the forward table of the
+		// same collection, whatever other collections were asked for before
+		bad, checked := 0, 0
+		for text, c := range m2 {
+			checked++
+			if m1[c] != text {
+				bad++
+			}
+			if checked >= 64 {
+				break
+			}
+		}
+		if bad > 0 {
+			w.fail("package-cache", map[string]string{"op": "mapping-inverse"}, "mapping %v: %d of %d sampled entries of the text-to-CID table are not the inverse of the CID-to-text table of the same collection", o, bad, checked)
+		}
 	}
 }
 
@@ -961,6 +1007,13 @@ func Run(e *core.Env) {
 		}
 		if sched.Deadlock != "" {
 			e.Fail("deadlock", nil, "no task can run: %s", sched.Deadlock)
+		}
+		for _, c := range w.staleCand {
+			iv, known := w.failIv[c.id]
+			if !known || iv[1] < c.call {
+				e.Fail("stale-error", nil, "Decode(%s) returned the failure of an earlier decode (callback failure #%d) although that decode had finished before this call began: an old error served again", c.ref, c.id)
+				break
+			}
 		}
 		if sched.Stuck != "" {
 			e.Fail("stuck", nil, "%s", sched.Stuck)
